@@ -239,12 +239,19 @@ def gen_document(rng, first=None):
         return name
 
     fields = [root_field(first)]
+    extra = None
     if rng.random() < 0.2:  # further root fields (not valid per validation, executable all the same)
         extra = rng.choice(["num", "whole", "ev", "echo"])
         f = root_field(extra)
         if extra == first:
             f = "x: " + f
         fields.append(f)
+    if rng.random() < 0.3:
+        # an aliased root field: the source is the field's (not the response key's) - also when the alias is the
+        # name of ANOTHER subscription field
+        alias = rng.choice(["msg", "msg", "num", "whole", "ev", "echo", "evNN"])
+        if alias not in (first, extra, "x"):
+            fields[0] = f"{alias}: {fields[0]}"
     if rng.random() < 0.08:
         fields.insert(rng.randint(0, 1), "__typename")
         if fields[0] == "__typename":
@@ -299,6 +306,9 @@ def gen_payload(rng, first):
     r = rng.random()
     if r < 0.04:
         return rng.choice([None, 7, "s", []])
+    if r < 0.10:
+        # the event itself is an exception OBJECT (a value like any other: it is the root value of that execution)
+        return {"$exc": "the event is an exception instance"}
     if first in ("whole", "wholeSlow"):
         p = gen_item(rng)
         if isinstance(p, dict):
